@@ -126,7 +126,8 @@ def compute(repo, tier="quick", which=None, jobs=None):
     os.replace(tmp, path)
     # keep the cache small: drop everything but the five most recent entries
     entries = sorted((os.path.getmtime(os.path.join(CACHE, x)), x) for x in os.listdir(CACHE) if x.startswith("lattice-"))
-    for _, x in entries[:-5]:
+    keep = int(os.environ.get("VERIF_CACHE_KEEP", "5"))
+    for _, x in entries[:-keep]:
         try:
             os.remove(os.path.join(CACHE, x))
         except OSError:
